@@ -6,7 +6,14 @@ import (
 )
 
 func mergeDocs(doc, patch *Document) error {
-	merged, err := merge(doc.Data, patch.Data)
+	// merge() stores parts of src inside dst, where later layers modify
+	// them in place. Give each target document its own copy of the patch.
+	data, err := deepClone(patch.Data)
+	if err != nil {
+		return err
+	}
+
+	merged, err := merge(doc.Data, data)
 	if err != nil {
 		return err
 	}
